@@ -1,4 +1,5 @@
 import PncProofs.UamivLemmas
+import PncModel.Camx.Slab
 
 /-!
 # C09 — binary files conform to the published layout: property theorems (uamiv family)
@@ -57,5 +58,23 @@ def exFile : Uamiv where
 /-- non-vacuity: the example is well-formed content, round-trips, and has the expected size -/
 example : refDecode exFile.encode = some exFile ∧ exFile.encode.length = 78 + 17 + 6 + 22 + 6 + 4 * 15 := by
   decide +kernel
+
+
+/-! ### slab formats (one3d, humidity, vertical diffusivity, temperature, height/pressure) -/
+
+/-- **the records tile the file**: a record walker consumes the encoding of any slab file exactly and returns
+one record per slab, in (step, slab) order -/
+theorem slab_tiles (f : Slab.SFile) :
+    parseRecords (Slab.encode f).length (Slab.encode f) = some (Slab.rows f) :=
+  parse_encode (Slab.rows f) _ (Nat.le_refl _)
+
+/-- **every record carries what was written**: the time, the date and the cells of its slab -/
+theorem slab_record_content (f : Slab.SFile) (r : List Word) (h : r ∈ Slab.rows f) :
+    ∃ s ∈ f.steps, ∃ c ∈ s.slabs, r = s.time :: s.date :: c := by
+  simp only [Slab.rows, List.mem_flatten, List.mem_map] at h
+  obtain ⟨rs, ⟨s, hs, rfl⟩, hr⟩ := h
+  simp only [Slab.stepRows, List.mem_map] at hr
+  obtain ⟨c, hc, rfl⟩ := hr
+  exact ⟨s, hs, c, hc, rfl⟩
 
 end Props.C09
